@@ -7,6 +7,16 @@
 //! every I/O call goes into one append-only event log with a global call index, a fault plan can fail or tear
 //! any call, and the crash image after any number of calls can be rebuilt from the log (WAL files cut at their
 //! last successful sync). Recovery always reads from the crash image of what the harness wrote.
+//!
+//! Additional dimensions (each with its own counters and `inconclusive` guards):
+//! * C11 read faults: the k-th object `get` of a recovery (every k of the fault-free run, in turn) fails once with
+//!   an I/O error, or returns the object truncated / with one bit flipped once. Oracle: `Err`, or `Ok` with exactly
+//!   the merge of everything persisted.
+//! * C11 large WAL entries: one WAL-only update whose serialized delta is larger than 1 MiB, followed by more
+//!   entries in the same WAL file.
+//! * C08 FLUSHALL / FLUSHDB between writes of one key (the per-key and per-shard maxima survive the flush), keys that
+//!   change type (string <-> hash, HINCRBY), a per-shard "stamps never repeat" monitor, and restarts from a
+//!   checkpoint in which a hash holds the highest stamp of its shard.
 use crate::common::*;
 use rand::seq::SliceRandom;
 use rand::Rng as _;
@@ -36,6 +46,8 @@ const NODE: u64 = 1;
 enum Fault {
     Fail,        // the call returns an error and has no effect
     Torn(usize), // a put / append takes effect for the first n bytes only, then returns an error
+    Short(usize), // a get returns only the first n bytes of the object (once; the object itself is intact)
+    Flip(usize),  // a get returns the object with bit n (mod its length) flipped (once; the object itself is intact)
 }
 
 #[derive(Clone, Debug)]
@@ -98,6 +110,8 @@ impl St {
 struct IoInner {
     log: Vec<Ev>,
     plan: BTreeMap<usize, Fault>,
+    get_plan: BTreeMap<usize, Fault>, // keyed by the ordinal of the object `get` (0 = first get of this Io)
+    gets: usize,
     st: St,
 }
 
@@ -112,13 +126,26 @@ impl Io {
     fn plan(&self, at: usize, f: Fault) {
         self.0.lock().unwrap().plan.insert(at, f);
     }
+    /// Fault for the k-th object `get` issued through this Io (counted from 0).
+    fn plan_get(&self, k: usize, f: Fault) {
+        self.0.lock().unwrap().get_plan.insert(k, f);
+    }
     fn calls(&self) -> usize {
         self.0.lock().unwrap().log.len()
+    }
+    /// (key, fault) of every object `get` so far, in call order.
+    fn gets(&self) -> Vec<(String, Option<Fault>)> {
+        self.0.lock().unwrap().log.iter().filter(|e| e.store == "obj" && e.op == "get").map(|e| (e.key.clone(), e.fault.clone())).collect()
     }
     /// One I/O call: logged under the next call index, applied (whole, torn or not at all), fault returned.
     fn call(&self, store: &'static str, op: &'static str, key: &str, to: &str, data: &[u8]) -> Result<(), Fault> {
         let mut g = self.0.lock().unwrap();
-        let fault = g.plan.get(&g.log.len()).cloned();
+        let mut fault = g.plan.get(&g.log.len()).cloned();
+        if store == "obj" && op == "get" {
+            let k = g.gets;
+            g.gets += 1;
+            fault = fault.or_else(|| g.get_plan.get(&k).cloned());
+        }
         let ev = Ev { store, op, key: key.into(), to: to.into(), data: data.to_vec(), fault: fault.clone() };
         g.st.apply(&ev);
         g.log.push(ev);
@@ -174,7 +201,19 @@ impl ObjectStore for PlanObjectStore {
         ready(io_err(self.0.call("obj", "put", key, "", data)))
     }
     fn get<'a>(&'a self, key: &'a str) -> Fut<'a, Vec<u8>> {
-        ready(io_err(self.0.call("obj", "get", key, "", &[])).and_then(|_| self.0.read(|s| s.objects.get(key).cloned()).ok_or_else(|| not_found(key))))
+        let called = self.0.call("obj", "get", key, "", &[]);
+        let data = || self.0.read(|s| s.objects.get(key).cloned()).ok_or_else(|| not_found(key));
+        ready(match called {
+            Err(Fault::Short(n)) => data().map(|d| d[..n.min(d.len())].to_vec()),
+            Err(Fault::Flip(bit)) => data().map(|mut d| {
+                if !d.is_empty() {
+                    let b = bit % (d.len() * 8);
+                    d[b / 8] ^= 1 << (b % 8);
+                }
+                d
+            }),
+            other => io_err(other).and_then(|_| data()),
+        })
     }
     fn exists<'a>(&'a self, key: &'a str) -> Fut<'a, bool> {
         ready(io_err(self.0.call("obj", "exists", key, "", &[])).map(|_| self.0.read(|s| s.objects.contains_key(key))))
@@ -213,7 +252,7 @@ struct PlanWalReader(Vec<u8>);
 fn wal_err(call: Result<(), Fault>, len: usize) -> Result<(), WalError> {
     call.map_err(|f| match f {
         Fault::Torn(n) => WalError::PartialWrite { expected: len, actual: n.min(len) },
-        Fault::Fail => WalError::Io(IoError::new(ErrorKind::Other, "injected fault")),
+        _ => WalError::Io(IoError::new(ErrorKind::Other, "injected fault")),
     })
 }
 
@@ -391,6 +430,22 @@ async fn validate_faults(rng: &mut Rng) -> Result<u64, String> {
     if io.image(at) != synced || io.image(io.calls()).files["f"].0 != d || tv.is_empty() || tv.iter().any(|v| v.objects["k"].len() >= d.len()) {
         return Err("crash images / torn variants are wrong".into());
     }
+    // read faults: a short / flipped get hands out damaged bytes exactly once and leaves the object alone
+    // (no draw from `rng` here: the case streams of both legs must not move)
+    let k = io.gets().len();
+    io.plan_get(k, Fault::Short(cut));
+    io.plan_get(k + 2, Fault::Flip((cut * 7 + 3) % (d.len() * 8)));
+    let before = io.read(|s| s.clone());
+    let (short, clean, flipped, clean2) = (obj.get("k").await.ok(), obj.get("k").await.ok(), obj.get("k").await.ok(), obj.get("k").await.ok());
+    let one_bit = |a: &[u8]| a.len() == d.len() && a.iter().zip(&d).map(|(x, y)| (x ^ y).count_ones()).sum::<u32>() == 1;
+    if short != Some(d[..cut].to_vec()) || clean.as_ref() != Some(&d) || !flipped.map_or(false, |f| one_bit(&f)) || clean2.as_ref() != Some(&d) || io.read(|s| s.clone()) != before {
+        return Err("short / flipped reads misbehave".into());
+    }
+    let marks: Vec<bool> = io.gets()[k..].iter().map(|g| g.1.is_some()).collect();
+    if marks != [true, false, true, false] {
+        return Err("the get plan does not hit exactly the planned gets".into());
+    }
+    checks += 4;
     Ok(checks)
 }
 
@@ -478,7 +533,12 @@ fn diff_component(l: Option<&Pi>, r: Option<&Pi>) -> Option<&'static str> {
 
 fn show(p: Option<&Pi>) -> Value {
     p.map_or(Value::Null, |p| {
-        let atoms: Vec<Value> = p.value.iter().map(|(n, x, b)| json!({"name": lossy(n.as_bytes()), "nums": x, "bytes": b.as_ref().map(|b| lossy(b))})).collect();
+        // large values (the >1 MiB WAL cases) are abbreviated: 48 bytes of a long string, 24 atoms of a big hash
+        let cap = |b: &[u8]| if b.len() > 256 { format!("{}...({} bytes)", lossy(&b[..48]), b.len()) } else { lossy(b) };
+        let mut atoms: Vec<Value> = p.value.iter().take(24).map(|(n, x, b)| json!({"name": lossy(n.as_bytes()), "nums": x, "bytes": b.as_ref().map(|b| cap(b))})).collect();
+        if p.value.len() > 24 {
+            atoms.push(json!({"more_atoms": p.value.len() - 24}));
+        }
         json!({"kind": p.kind, "content": atoms, "expiry": p.expiry, "vector_clock": p.vc, "rf": p.rf, "outer_stamp": p.stamp})
     })
 }
@@ -536,7 +596,7 @@ async fn check_shard_map(keys: &[String]) -> bool {
 
 async fn put_manifest(obj: &PlanObjectStore, segments: Vec<SegmentInfo>, checkpoint: Option<CheckpointInfo>) -> Result<(), String> {
     let next_segment_id = segments.iter().map(|s| s.id + 1).max().unwrap_or(0).max(checkpoint.as_ref().map_or(0, |c| c.last_segment_id + 1));
-    // field assignment, not a struct literal: compiles whether or not the manifest has further fields
+    // field assignment instead of a struct literal: compiles whatever further public fields `Manifest` has
     let mut m = Manifest::new(NODE);
     m.version = 1 + segments.len() as u64;
     m.segments = segments;
@@ -567,7 +627,9 @@ async fn put_checkpoint(obj: &PlanObjectStore, state: HashMap<String, Replicated
 
 /// One WAL file written the way the node does (entry stamp = the delta's Lamport time); the first `synced` entries are fsynced.
 fn put_wal_file(wal: &PlanWalStore, deltas: &[&ReplicationDelta], synced: usize) -> Result<(), String> {
-    let mut rot = WalRotator::new(wal.clone(), 1 << 24).map_err(|e| e.to_string())?;
+    // one call = one file: the rotation bound lies above everything written here (16 MiB unless an entry is larger)
+    let total: u64 = deltas.iter().map(|d| bincode::serialized_size(*d).unwrap_or(0) + 16).sum();
+    let mut rot = WalRotator::new(wal.clone(), (1usize << 24).max(total as usize + 64)).map_err(|e| e.to_string())?;
     for (i, d) in deltas.iter().enumerate() {
         if i == synced && i > 0 {
             rot.sync().map_err(|e| e.to_string())?;
@@ -906,6 +968,317 @@ fn witness11(c: &Case, entry: &str, f: &Finding) -> Value {
            "readable_updates": c.ups.iter().map(brief).collect::<Vec<_>>(), "observed": f.extra})
 }
 
+// ---------------------------------------------------------------- C11: read faults during recovery
+
+const FAULT_ENTRIES: [&str; 3] = ["recover", "recover_with_progress", "recover_with_wal"];
+const FAULT_KINDS: [&str; 3] = ["io-error", "truncated", "bit-flip"];
+const OBJECTS: [&str; 3] = ["manifest", "checkpoint", "segment"];
+
+/// One damaged read: the `get`-th object read of the recovery fails / is cut / has one bit flipped, once.
+#[derive(Clone, Debug, Serialize, Deserialize, PartialEq)]
+struct ReadFault {
+    get: usize,   // ordinal among the object gets of the recovery (0 = the manifest)
+    kind: String, // io-error | truncated | bit-flip
+    arg: usize,   // truncated: number of bytes handed out; bit-flip: index of the bit
+}
+
+impl ReadFault {
+    fn fault(&self) -> Fault {
+        match self.kind.as_str() {
+            "truncated" => Fault::Short(self.arg),
+            "bit-flip" => Fault::Flip(self.arg),
+            _ => Fault::Fail,
+        }
+    }
+}
+
+fn object_class(key: &str) -> &'static str {
+    if key.contains("/checkpoints/") {
+        "checkpoint"
+    } else if key.contains("/segments/") {
+        "segment"
+    } else {
+        "manifest"
+    }
+}
+
+/// One recovery through a `RecoveryManager` entry point on `io`, folded. No node involved.
+async fn recover_fold(entry: &str, io: &Io) -> Result<BTreeMap<String, ReplicatedValue>, String> {
+    let (obj, wal) = (PlanObjectStore(io.clone()), PlanWalStore(io.clone()));
+    let rm = RecoveryManager::new(obj, PREFIX, NODE);
+    let rot = WalRotator::new(wal, 1 << 24).map_err(|e| e.to_string())?;
+    let rs = match entry {
+        "recover" => rm.recover().await,
+        "recover_with_progress" => rm.recover_with_progress(|_| {}).await,
+        _ => rm.recover_with_wal(&rot).await,
+    };
+    rs.map(fold_recovered).map_err(|e| e.to_string())
+}
+
+enum FaultOutcome {
+    NotReached,                  // the recovery issues fewer gets
+    Failed(&'static str),        // Err: allowed
+    Complete(&'static str),      // Ok with exactly the merge of everything persisted: allowed
+    Bad(&'static str, Finding),  // Ok with anything else
+}
+
+/// Recovery with one damaged read must fail as a whole or return everything; `Ok` with less (or other) content is the violation.
+async fn fault_check(c: &Case, img: &St, entry: &str, rf: &ReadFault) -> FaultOutcome {
+    let io = Io::from_image(img.clone());
+    io.plan_get(rf.get, rf.fault());
+    let r = recover_fold(entry, &io).await;
+    let hit = io.gets().into_iter().find(|g| g.1.is_some());
+    let object = match &hit {
+        Some(g) => object_class(&g.0),
+        None => return FaultOutcome::NotReached,
+    };
+    // what the recovery code was handed instead of the object: the bytes around the damage, before and after
+    let damage = hit.as_ref().and_then(|g| img.objects.get(&g.0).map(|d| (g.0.clone(), d))).map_or(Value::Null, |(key, d)| match rf.fault() {
+        Fault::Flip(bit) if !d.is_empty() => {
+            let at = bit % (d.len() * 8) / 8;
+            let (lo, hi) = (at.saturating_sub(24), (at + 24).min(d.len()));
+            let mut after = d[lo..hi].to_vec();
+            after[at - lo] ^= 1 << (bit % 8);
+            json!({"object": key, "object_bytes": d.len(), "byte": at, "around_before": lossy(&d[lo..hi]), "around_after": lossy(&after)})
+        }
+        Fault::Short(n) => json!({"object": key, "object_bytes": d.len(), "handed_out_bytes": n.min(d.len())}),
+        _ => json!({"object": key, "object_bytes": d.len()}),
+    });
+    let got = match r {
+        Err(_) => return FaultOutcome::Failed(object),
+        Ok(f) => pis(&f),
+    };
+    let want = c.lay.expected(entry);
+    let truth = pis(&fold_set(&c.ups, want.iter().copied()));
+    let keys: BTreeSet<&String> = truth.keys().chain(got.keys()).collect();
+    for k in keys {
+        if let Some(comp) = diff_component(truth.get(k), got.get(k)) {
+            let class = classify(c, &want, k, got.get(k));
+            let class = if class.starts_with("dropped:") { class } else { format!("{}:{}", comp, class) };
+            return FaultOutcome::Bad(
+                object,
+                Finding {
+                    // one signature per (entry point, kind of damage, object read): what went missing is in the detail
+                    sig: format!("C11|{}|ok-but-not-the-merge-after-damaged-read|fault={},object={}", entry, rf.kind, object),
+                    detail: format!("key {:?}: get #{} ({}) was damaged once ({} {}), recovery returned Ok, and the fold of the RecoveredState differs from the merge of the {} persisted updates in {} ({})", k, rf.get, object, rf.kind, rf.arg, want.len(), comp, class),
+                    extra: json!({"key": k, "expected": show(truth.get(k)), "got": show(got.get(k)), "damage": damage}),
+                },
+            );
+        }
+    }
+    FaultOutcome::Complete(object)
+}
+
+/// The faults tried on one image: for every get of the fault-free recovery an I/O error, truncations, bit flips.
+fn fault_plan(gets: &[(String, usize)], rng: &mut Rng, thorough: bool, manifest_flips: bool) -> Vec<ReadFault> {
+    let mut out = vec![];
+    for (k, (key, len)) in gets.iter().enumerate() {
+        out.push(ReadFault { get: k, kind: "io-error".into(), arg: 0 });
+        if *len == 0 {
+            continue;
+        }
+        let mut cuts: Vec<usize> = vec![0, 1, len / 2, len - 1, len.saturating_sub(4), len.saturating_sub(16)];
+        cuts.retain(|n| n < len);
+        cuts.sort();
+        cuts.dedup();
+        if !thorough {
+            cuts = vec![cuts[rng.gen_range(0..cuts.len())]];
+        }
+        out.extend(cuts.into_iter().map(|n| ReadFault { get: k, kind: "truncated".into(), arg: n }));
+        // half of the flips in the first 64 bytes (headers, counts, lengths), half anywhere
+        for i in 0..if thorough { 8 } else { 2 } {
+            if !manifest_flips && object_class(key) == "manifest" {
+                break;
+            }
+            let bit = if i % 2 == 0 { rng.gen_range(0..len.min(&64) * 8) } else { rng.gen_range(0..len * 8) };
+            out.push(ReadFault { get: k, kind: "bit-flip".into(), arg: bit });
+        }
+    }
+    out
+}
+
+fn witness_fault(c: &Case, entry: &str, rf: &ReadFault, f: &Finding) -> Value {
+    let mut w = witness11(c, entry, f);
+    w["read_fault"] = json!(rf);
+    w
+}
+
+/// The same damage on any get of a smaller case (removing updates removes objects and shifts the ordinals).
+async fn find_fault(c: &Case, entry: &str, rf: &ReadFault, sig: &str) -> Option<(ReadFault, Finding)> {
+    let img = build_image(c).await.ok()?;
+    for get in std::iter::once(rf.get).chain(0..8) {
+        let t = ReadFault { get, ..rf.clone() };
+        if let FaultOutcome::Bad(_, f) = fault_check(c, &img, entry, &t).await {
+            if f.sig == sig {
+                return Some((t, f));
+            }
+        }
+    }
+    None
+}
+
+async fn shrink_fault(c: &Case, entry: &str, rf: &ReadFault, sig: &str) -> Option<(Case, ReadFault, Finding)> {
+    let (mut cur, mut cur_rf) = (c.clone(), rf.clone());
+    let mut u = cur.ups.len();
+    while u > 0 {
+        u -= 1;
+        let t = without(&cur, u);
+        if let Some((trf, _)) = find_fault(&t, entry, &cur_rf, sig).await {
+            (cur, cur_rf) = (t, trf);
+        }
+    }
+    let (frf, f) = find_fault(&cur, entry, &cur_rf, sig).await?;
+    Some((cur, frf, f))
+}
+
+/// All single damaged reads of one image, through the three `RecoveryManager` entry points.
+fn sweep_case(rep: &mut Report, rt: &tokio::runtime::Runtime, c: &Case, rng: &mut Rng, thorough: bool, manifest_flips: bool) {
+    let Ok(img) = rt.block_on(build_image(c)) else { return };
+    let clean = Io::from_image(img.clone());
+    if rt.block_on(recover_fold("recover", &clean)).is_err() {
+        rep.count("read-fault:skipped:fault-free-recovery-fails");
+        return;
+    }
+    let gets: Vec<(String, usize)> = clean.gets().into_iter().map(|g| (g.0.clone(), img.objects.get(&g.0).map_or(0, |o| o.len()))).collect();
+    let plan = fault_plan(&gets, rng, thorough, manifest_flips);
+    rep.count("read-fault:images");
+    rep.max("gets_per_recovery", gets.len() as u64);
+    let shape = (c.lay.chk.is_some(), c.lay.segs.len().min(3), c.lay.wals.len().min(2), c.lay.unlist_covered);
+    for entry in FAULT_ENTRIES {
+        let want = c.lay.expected(entry);
+        if !order_independent(&c.ups, &want) {
+            continue;
+        }
+        // the fault-free recovery through this entry point must be right, otherwise the finding belongs to the plain cases
+        let truth = pis(&fold_set(&c.ups, want.iter().copied()));
+        if rt.block_on(recover_fold(entry, &Io::from_image(img.clone()))).ok().map(|f| pis(&f)) != Some(truth) {
+            rep.count("read-fault:skipped:fault-free-recovery-already-wrong");
+            continue;
+        }
+        for rf in &plan {
+            rep.evaluations += 1;
+            let outcome = match guard(|| rt.block_on(fault_check(c, &img, entry, rf))) {
+                Ok(o) => o,
+                Err(p) => {
+                    let object = gets.get(rf.get).map_or("?", |g| object_class(&g.0));
+                    let f = Finding { sig: format!("C11|{}|panic-after-damaged-read|fault={},object={}|{}", entry, rf.kind, object, panic_class(&p)), detail: p, extra: json!({}) };
+                    rep.count(&format!("fail:{}", &f.sig[4..]));
+                    rep.violation(f.sig.clone(), f.detail.clone(), witness_fault(c, entry, rf, &f));
+                    continue;
+                }
+            };
+            let (object, what) = match &outcome {
+                FaultOutcome::NotReached => ("none", "not-reached"),
+                FaultOutcome::Failed(o) => (*o, "recovery-failed"),
+                FaultOutcome::Complete(o) => (*o, "recovery-complete"),
+                FaultOutcome::Bad(o, _) => (*o, "VIOLATION"),
+            };
+            rep.count(&format!("read-fault:{}:{}:{}", rf.kind, object, what));
+            rep.count(&format!("read-fault:entry:{}", entry));
+            rep.distinct(&("read-fault", &rf.kind, object, entry, shape));
+            if let FaultOutcome::Bad(_, f) = outcome {
+                rep.count(&format!("fail:{}", &f.sig[4..]));
+                if rep.has_sig(&f.sig) {
+                    rep.count("violations_raw");
+                    continue;
+                }
+                let small = guard(|| rt.block_on(shrink_fault(c, entry, rf, &f.sig))).ok().flatten();
+                let (wc, wrf, wf) = small.unwrap_or((c.clone(), rf.clone(), f));
+                rep.violation(wf.sig.clone(), format!("{} ({} updates after shrinking)", wf.detail, wc.ups.len()), witness_fault(&wc, entry, &wrf, &wf));
+            }
+        }
+    }
+}
+
+// ---------------------------------------------------------------- C11: WAL entries above 1 MiB
+
+const MIB: usize = 1 << 20;
+
+fn serialized_len(d: &ReplicationDelta) -> usize {
+    bincode::serialized_size(d).unwrap_or(0) as usize
+}
+
+/// A small write, one large update (`kind` = string: `size` payload bytes; hash: `size` small fields), then two more
+/// small writes, all stamped by one shard clock; `layout` says where they are persisted:
+/// 0 = everything in one WAL file, nothing in the object store; 1 = first write in a segment, the rest in one WAL file;
+/// 2 = first write in the checkpoint, everything in one WAL file; 3 = the large update in a segment as well as in the
+/// WAL file (the entries behind it are WAL-only).
+fn big_case(kind: &str, size: usize, layout: usize, reps: usize) -> Case {
+    let mut s = ShardReplicaState::new(ReplicaId(NODE), ConsistencyLevel::Eventual);
+    let mut ups = vec![s.record_write("a".into(), sds("before"), None)];
+    ups.push(match kind {
+        "hash" => s.record_hash_write("BIG".into(), (0..size).map(|i| (format!("f{:06}", i), sds(&format!("v{}", i % 97)))).collect()),
+        _ => s.record_write("BIG".into(), SDS::new((0..size).map(|i| b'a' + (i % 23) as u8).collect()), None),
+    });
+    ups.push(s.record_write("a".into(), sds("after"), None));
+    ups.push(s.record_write("b".into(), sds("later"), None));
+    let wal = |upd: Vec<usize>| vec![Wal { synced: upd.len(), upd }];
+    let lay = match layout {
+        0 => Layout { chk: None, segs: vec![], wals: wal(vec![0, 1, 2, 3]), unlist_covered: false, no_manifest: true },
+        1 => Layout { chk: None, segs: vec![Seg { id: 1, upd: vec![0] }], wals: wal(vec![1, 2, 3]), unlist_covered: false, no_manifest: false },
+        2 => Layout { chk: Some(Chk { own: vec![0], last: 0 }), segs: vec![], wals: wal(vec![0, 1, 2, 3]), unlist_covered: false, no_manifest: false },
+        _ => Layout { chk: None, segs: vec![Seg { id: 1, upd: vec![0, 1] }], wals: wal(vec![1, 2, 3]), unlist_covered: false, no_manifest: false },
+    };
+    Case { ups, lay, reps }
+}
+
+fn big_recipe(w: &Value) -> Option<Case> {
+    let r = w.get("recipe")?;
+    Some(big_case(r["kind"].as_str()?, r["size"].as_u64()? as usize, r["layout"].as_u64()? as usize, w["reps"].as_u64().unwrap_or(1) as usize))
+}
+
+/// Findings of this space carry the input class in the signature: the dropped update need not be the large one.
+fn big_finding(mut f: Finding) -> Finding {
+    // (where the WAL-only update lies relative to the segments' stamps is a detail of the layout here, not a cause)
+    if let Some(i) = f.sig.find("dropped:wal-only:") {
+        let end = f.sig[i..].find('|').map_or(f.sig.len(), |j| i + j);
+        f.sig.replace_range(i + "dropped:wal-only".len()..end, "");
+    }
+    f.sig = format!("{}|wal-file-holds-an-entry-above-1MiB", f.sig);
+    f
+}
+
+fn witness_big(c: &Case, recipe: &Value, entry: &str, f: &Finding) -> Value {
+    let upd: Vec<Value> = c.ups.iter().map(|d| json!({"key": d.key, "kind": d.value.crdt_type(), "stamp": d.value.timestamp.time, "serialized_bytes": serialized_len(d)})).collect();
+    json!({"recipe": recipe, "layout": c.lay, "reps": c.reps, "entry": entry, "readable_updates": upd, "observed": f.extra})
+}
+
+async fn do_big_case(rep: &mut Report, c: &Case, recipe: &Value) {
+    let img = match build_image(c).await {
+        Ok(i) => i,
+        Err(e) => {
+            rep.count("harness:image-build-failed");
+            rep.note(format!("could not build an image: {}", e));
+            return;
+        }
+    };
+    let len = serialized_len(&c.ups[1]);
+    let wal_only = !c.lay.expected("recover").contains(&1);
+    let one_file = img.files.len() == 1;
+    rep.max("wal_entry_bytes", len as u64);
+    rep.count(&format!("large:{}:{}", c.ups[1].value.crdt_type(), match (len > MIB, wal_only) { (false, _) => "entry-below-1MiB(control)", (true, true) => "wal-only-entry-above-1MiB", (true, false) => "entry-above-1MiB-also-in-a-segment" }));
+    if len > MIB && one_file {
+        rep.count("cases:wal-entry-above-1MiB-followed-by-entries-in-the-same-file");
+    }
+    if len > 16 * MIB {
+        rep.count("cases:wal-entry-above-16MiB");
+    }
+    for entry in ENTRIES {
+        rep.evaluations += 1;
+        if !order_independent(&c.ups, &c.lay.expected(entry)) {
+            rep.count("sets:skipped-merge-order-dependent(C07)");
+            continue;
+        }
+        rep.count(&format!("entry:{}", entry));
+        rep.count("space:large-wal-entry");
+        rep.distinct(&("large-wal-entry", c.ups[1].value.crdt_type(), (len / MIB).min(20), recipe["layout"].as_u64(), entry, c.reps));
+        if let Some(f) = run_entry(c, &img, entry).await.map(big_finding) {
+            rep.count(&format!("fail:{}", &f.sig[4..]));
+            rep.violation(f.sig.clone(), format!("{} (WAL entry of {} bytes, not shrunk)", f.detail, len), witness_big(c, recipe, entry, &f));
+        }
+    }
+}
+
 // ---------------------------------------------------------------- C11: generators
 
 /// Update sets grown through real `ShardReplicaState`s: replica 1 is the node (one clock per shard, started at
@@ -1130,13 +1503,44 @@ pub fn recover_leg(args: &Args) {
     if let Some(path) = &args.replay {
         let w: Value = serde_json::from_str(&std::fs::read_to_string(path).expect("replay file")).expect("json");
         let w = &w["witness"];
+        let entry = w["entry"].as_str().unwrap_or("recover").to_string();
+        rep.evaluations += 1;
+        if let Some(c) = big_recipe(w) {
+            // a large-WAL-entry case is rebuilt from its recipe
+            match guard(|| rt.block_on(find(&c, &entry))) {
+                Ok(Some(f)) => {
+                    let f = big_finding(f);
+                    rep.violation(f.sig.clone(), f.detail.clone(), witness_big(&c, &w["recipe"], &entry, &f))
+                }
+                Ok(None) => {}
+                Err(p) => rep.violation(format!("C11|{}|panic|{}", entry, panic_class(&p)), p, w.clone()),
+            }
+            rep.finish(args);
+            return;
+        }
         let c = Case {
             ups: w["updates"].as_array().expect("updates").iter().map(|s| dec(s.as_str().unwrap_or(""))).collect(),
             lay: serde_json::from_value(w["layout"].clone()).expect("layout"),
             reps: w["reps"].as_u64().unwrap_or(1) as usize,
         };
-        let entry = w["entry"].as_str().unwrap_or("recover").to_string();
-        rep.evaluations += 1;
+        if let Ok(rf) = serde_json::from_value::<ReadFault>(w["read_fault"].clone()) {
+            // a damaged-read case: the same image, the same damaged get
+            match guard(|| rt.block_on(async { fault_check(&c, &build_image(&c).await.expect("image"), &entry, &rf).await })) {
+                Ok(FaultOutcome::Bad(_, f)) => rep.violation(f.sig.clone(), f.detail.clone(), witness_fault(&c, &entry, &rf, &f)),
+                Ok(_) => {}
+                Err(p) => {
+                    // which object the damaged get reads: from the gets of the fault-free recovery
+                    let obj = rt.block_on(async {
+                        let io = Io::from_image(build_image(&c).await.unwrap_or_default());
+                        let _ = recover_fold("recover", &io).await;
+                        io.gets().get(rf.get).map_or("?", |g| object_class(&g.0))
+                    });
+                    rep.violation(format!("C11|{}|panic-after-damaged-read|fault={},object={}|{}", entry, rf.kind, obj, panic_class(&p)), p, w.clone())
+                }
+            }
+            rep.finish(args);
+            return;
+        }
         match guard(|| rt.block_on(find(&c, &entry))) {
             Ok(Some(f)) => rep.violation(f.sig.clone(), f.detail.clone(), witness11(&c, &entry, &f)),
             Ok(None) => {}
@@ -1159,12 +1563,19 @@ pub fn recover_leg(args: &Args) {
             rep.violation(sig, p, json!({"updates": c.ups.iter().map(enc).collect::<Vec<_>>(), "layout": c.lay, "reps": c.reps, "entry": "server-replay"}));
         }
     };
-    for _ in 0..n_rand {
+    // the new dimensions draw from their own stream: the plain cases below are the same as before they existed
+    let mut rng2 = args.rng(1111);
+    let sweep_every = args.get_u64("read-fault-every", if t { 3 } else { 8 }).max(1);
+    let mut sweeps: Vec<Case> = vec![];
+    for i in 0..n_rand {
         let ups = grow(&mut rng);
         if ups.is_empty() {
             continue;
         }
         let c = Case { lay: gen_layout(&mut rng, ups.len()), reps: rng.gen_range(1..=3), ups };
+        if i % sweep_every == 0 && !c.lay.no_manifest {
+            sweeps.push(c.clone());
+        }
         run(&mut rep, c, "random");
     }
     let mut done = 0;
@@ -1175,11 +1586,43 @@ pub fn recover_leg(args: &Args) {
         }
         ups.truncate(3);
         done += 1;
-        for lay in small_space(3) {
-            run(&mut rep, Case { ups: ups.clone(), lay, reps: 1 + (done % 2) as usize }, "exhaustive-3");
+        for (i, lay) in small_space(3).into_iter().enumerate() {
+            let c = Case { ups: ups.clone(), lay, reps: 1 + (done % 2) as usize };
+            if (i as u64 + done) % (2 * sweep_every) == 0 {
+                sweeps.push(c.clone());
+            }
+            run(&mut rep, c, "exhaustive-3");
         }
     }
-    let c = |k: &str| rep.counters.get(k).copied().unwrap_or(0);
+    let plain_evaluations = rep.evaluations;
+    // read faults: every get of the recovery damaged once, on a stride of the images above
+    // `--manifest-bit-flips 0` leaves out one class: one flipped bit in the bytes of manifest.json (the manifest carries
+    // no checksum, see the finding `..|fault=bit-flip,object=manifest`); everything else is unaffected by the switch
+    let manifest_flips = args.get_u64("manifest-bit-flips", 1) != 0;
+    for c in &sweeps {
+        sweep_case(&mut rep, &rt, c, &mut rng2, t, manifest_flips);
+    }
+    if !manifest_flips {
+        rep.note("bit flips in reads of manifest.json were left out on request (--manifest-bit-flips 0)");
+    }
+    // WAL entries above 1 MiB followed by more entries in the same file
+    let jitter = rng2.gen_range(0..4096usize);
+    let mut specs: Vec<(&str, usize, Vec<usize>)> = vec![("string", MIB + MIB / 5 + jitter, vec![0, 1, 3]), ("string", 3 * MIB + jitter, vec![1, 2]), ("hash", 40_000 + jitter % 512, vec![0, 3]), ("string", MIB - 4096 - jitter, vec![1])];
+    if t {
+        specs.extend([("string", 17 * MIB + jitter, vec![0, 1, 2, 3]), ("string", 5 * MIB / 4, vec![2]), ("hash", 40_000, vec![1, 2]), ("hash", 120_000, vec![0, 1])]);
+        specs.extend((0..8).map(|i| ("string", MIB - 128 + 32 * i, vec![i % 4]))); // serialized sizes on both sides of 1 MiB
+    }
+    for (n, (kind, size, layouts)) in specs.into_iter().enumerate() {
+        for layout in layouts {
+            let recipe = json!({"kind": kind, "size": size, "layout": layout});
+            let c = big_case(kind, size, layout, 1 + (n + layout) % 2);
+            if let Err(p) = guard(|| rt.block_on(do_big_case(&mut rep, &c, &recipe))) {
+                rep.violation(format!("C11|recovery|panic|{}|wal-file-holds-an-entry-above-1MiB", panic_class(&p)), p, json!({"recipe": recipe, "reps": c.reps, "entry": "server-replay"}));
+            }
+        }
+    }
+    let counters = rep.counters.clone();
+    let c = |k: &str| counters.get(k).copied().unwrap_or(0);
     let mut missing: Vec<String> = ["cases:remote-stamps-far-ahead", "cases:stamps-not-monotone-in-emission-order", "cases:wal-only-update-below-segment-high-water", "cases:segment-ids-against-min-stamps", "cases:duplicated-updates",
         "cases:segments-covered-by-checkpoint", "cases:unsynced-wal-tail", "cases:repeated-recovery", "cases:equal-times-from-different-shards-or-replicas", "space:exhaustive-3"].iter().filter(|k| c(k) == 0).map(|k| k.to_string()).collect();
     missing.extend(ENTRIES.iter().filter(|e| c(&format!("entry:{}", e)) == 0).map(|e| format!("entry:{}", e)));
@@ -1188,9 +1631,24 @@ pub fn recover_leg(args: &Args) {
     if !missing.is_empty() {
         rep.inconclusive(format!("never observed: {}", missing.join(", ")));
     }
-    if skipped * 4 > rep.evaluations {
+    if skipped * 4 > plain_evaluations {
         rep.inconclusive("more than a quarter of the cases were skipped because their merge is order dependent");
     }
+    // the new dimensions: every (fault kind, object) pair reached, through every entry point; large entries of both kinds
+    let sum = |prefix: &str| counters.iter().filter(|(k, _)| k.starts_with(prefix)).map(|(_, v)| *v).sum::<u64>();
+    let mut unseen: Vec<String> = FAULT_KINDS.iter().flat_map(|k| OBJECTS.iter().map(move |o| format!("read-fault:{}:{}:", k, o))).filter(|p| sum(p) == 0 && (manifest_flips || p != "read-fault:bit-flip:manifest:")).collect();
+    unseen.extend(FAULT_ENTRIES.iter().map(|e| format!("read-fault:entry:{}", e)).filter(|k| c(k) == 0));
+    unseen.extend(["large:lww:wal-only-entry-above-1MiB", "large:hash:wal-only-entry-above-1MiB", "large:lww:entry-above-1MiB-also-in-a-segment", "cases:wal-entry-above-1MiB-followed-by-entries-in-the-same-file"].iter().filter(|k| c(k) == 0).map(|k| k.to_string()));
+    if t && c("cases:wal-entry-above-16MiB") == 0 {
+        unseen.push("cases:wal-entry-above-16MiB".into());
+    }
+    if !unseen.is_empty() {
+        rep.inconclusive(format!("never observed: {}", unseen.join(", ")));
+    }
+    if sum("read-fault:io-error:") > 0 && sum("read-fault:") > 0 && FAULT_KINDS.iter().all(|k| OBJECTS.iter().all(|o| c(&format!("read-fault:{}:{}:recovery-failed", k, o)) == 0)) {
+        rep.inconclusive("no damaged read ever made a recovery fail: the read faults do not reach the recovery code");
+    }
+    rep.note("read faults: on a stride of the images every object get of the fault-free recovery is damaged once (I/O error; truncated; one bit flipped) and recover / recover_with_progress / recover_with_wal must return Err or exactly the merge; large entries: one update above 1 MiB persisted in a WAL file with further entries behind it");
     rep.note("one case = one update set spread over one persistent image, recovered through one entry point 1-3 times; the sub-space of 3-update sets over {checkpoint, 2 segments, WAL} x id order x last_segment_id is enumerated completely per set, the rest is sampled");
     rep.finish(args);
 }
@@ -1205,6 +1663,9 @@ enum HOp {
     Incr { k: String },
     HSet { k: String, f: String, v: String },
     HDel { k: String, f: String },
+    HIncr { k: String, f: String, by: i64 },
+    /// FLUSHALL (all = true) or FLUSHDB: every shard drops its keys; no delta is emitted
+    Flush { all: bool },
     /// a delta from peer `rid` stamped `time` (built by a real `ShardReplicaState` of that peer); v = None is a deletion
     Remote { k: String, f: Option<String>, rid: u64, time: u64, v: Option<String> },
 }
@@ -1242,6 +1703,8 @@ struct Ack {
 struct Mon {
     key: BTreeMap<String, BTreeMap<Stamp, BTreeSet<&'static str>>>,
     slot: BTreeMap<Slot, BTreeSet<Stamp>>,
+    kind: BTreeMap<String, (Stamp, &'static str)>,          // CRDT kind of the highest-stamped observation of the key
+    shard: BTreeMap<usize, (Stamp, String, &'static str)>, // highest stamp observed in a shard: (stamp, key, via)
 }
 
 fn st_of(l: &LwwRegister<SDS>) -> Stamp {
@@ -1269,10 +1732,51 @@ impl Mon {
         for (slot, stamp, _) in slots_of(key, v) {
             self.slot.entry(slot).or_default().insert(stamp);
         }
+        if self.kind.get(key).map_or(true, |k| top >= k.0) {
+            self.kind.insert(key.to_string(), (top, v.crdt_type()));
+        }
+        if self.shard.get(&shard_of(key)).map_or(true, |s| top > s.0) {
+            self.shard.insert(shard_of(key), (top, key.to_string(), via));
+        }
     }
     fn max(&self, key: &str) -> Option<(Stamp, BTreeSet<&'static str>)> {
         self.key.get(key).and_then(|m| m.iter().next_back()).map(|(s, v)| (*s, v.clone()))
     }
+}
+
+/// Flushes of the running incarnation, and after how many of them the current maximum of each key / shard was observed.
+#[derive(Default)]
+struct Flushes {
+    n: usize,
+    key_max_at: BTreeMap<String, usize>,
+    shard_max_at: BTreeMap<usize, usize>,
+}
+
+impl Flushes {
+    fn observe(&mut self, mon: &mut Mon, key: &str, v: &ReplicatedValue, via: &'static str) {
+        let before = (mon.max(key).map(|p| p.0), mon.shard.get(&shard_of(key)).map(|s| s.0));
+        mon.observe(key, v, via);
+        if mon.max(key).map(|p| p.0) != before.0 {
+            self.key_max_at.insert(key.to_string(), self.n);
+        }
+        if mon.shard.get(&shard_of(key)).map(|s| s.0) != before.1 {
+            self.shard_max_at.insert(shard_of(key), self.n);
+        }
+    }
+    /// the maximum of the key / of the shard was observed before the most recent flush (or recovered, and a flush followed)
+    fn key_max_is_older(&self, key: &str) -> bool {
+        self.n > self.key_max_at.get(key).copied().unwrap_or(0)
+    }
+    fn shard_max_is_older(&self, shard: usize) -> bool {
+        self.n > self.shard_max_at.get(&shard).copied().unwrap_or(0)
+    }
+}
+
+/// Signature without the context of the write (`|after-flush`, `|type-change=..`): minimisation keeps this part and lets
+/// the context go where the flush / the type change turns out not to be needed.
+fn base_sig(sig: &str) -> &str {
+    let cut = ["|after-flush", "|type-change="].iter().filter_map(|t| sig.find(t)).min().unwrap_or(sig.len());
+    &sig[..cut]
 }
 
 fn via(p: &Option<(Stamp, BTreeSet<&'static str>)>) -> String {
@@ -1383,7 +1887,15 @@ struct Stats {
 
 /// Is some peer delta allowed to beat the acknowledged write (stamped higher and unknown to the node when it wrote)?
 fn may_lose(ack: &Ack, slot: &Slot, remotes: &[ReplicationDelta]) -> bool {
-    remotes.iter().filter(|r| r.key == slot.0).flat_map(|r| slots_of(&r.key, &r.value)).any(|(s, stamp, _)| &s == slot && stamp > ack.stamp && !ack.seen.contains(&stamp))
+    // on the keys that change type a peer value of the other type wins the whole key by its stamp
+    let other_type_wins = |r: &ReplicationDelta| mixed_key(&slot.0) && r.value.is_hash() != slot.1.is_some() && (r.value.timestamp.time, r.value.timestamp.replica_id.0) > ack.stamp;
+    remotes.iter().filter(|r| r.key == slot.0).any(|r| other_type_wins(r))
+        || remotes.iter().filter(|r| r.key == slot.0).flat_map(|r| slots_of(&r.key, &r.value)).any(|(s, stamp, _)| &s == slot && stamp > ack.stamp && !ack.seen.contains(&stamp))
+}
+
+/// Keys on which the histories mix string and hash commands (SET over a hash, HSET after DEL, ..).
+fn mixed_key(k: &str) -> bool {
+    k.starts_with('m')
 }
 
 async fn check_served(st: &ReplicatedShardedState, site: &str, acks: &BTreeMap<Slot, Ack>, remotes: &[ReplicationDelta], stats: &mut Stats, out: &mut Vec<Finding>) {
@@ -1439,6 +1951,16 @@ async fn run_hist(h: &Hist, stats: &mut Stats) -> Vec<Finding> {
         let crash = h.crashes.get(pi_);
         let mut snap = None;
         let mut fresh_keys: BTreeSet<String> = BTreeSet::new();
+        // shards whose highest recovered stamp is carried by a hash that came from a checkpoint alone
+        let mut hash_top: BTreeSet<usize> = match &restart {
+            Some((1, ..)) => mon.shard.iter().filter(|(_, s)| mon.kind.get(&s.1).map_or(false, |k| k.1 == "hash")).map(|(sh, _)| *sh).collect(),
+            _ => BTreeSet::new(),
+        };
+        if !hash_top.is_empty() {
+            *stats.counters.entry("restart:checkpoint-only:a-hash-holds-the-highest-stamp-of-its-shard".into()).or_default() += 1;
+        }
+        // FLUSHALL / FLUSHDB of this incarnation
+        let mut fl = Flushes::default();
         for (oi, op) in ops.iter().enumerate() {
             if crash.map_or(false, |c| c.mask & 1 != 0 && c.mask != 1 && c.chk_after == oi) {
                 snap = Some((st.snapshot_state().await, locals.len()));
@@ -1448,7 +1970,7 @@ async fn run_hist(h: &Hist, stats: &mut Stats) -> Vec<Finding> {
                 HOp::Remote { k, f, rid, time, v } => {
                     let d = remote_delta(k, f, *rid, *time, v, h.causal);
                     st.apply_remote_deltas(vec![d.clone()]);
-                    mon.observe(&d.key, &d.value, "remote");
+                    fl.observe(&mut mon, &d.key, &d.value, "remote");
                     remotes.push(d);
                     *stats.counters.entry(format!("remote-deltas:{}", if *time >= 1 << 40 { "far-future" } else { "near" })).or_default() += 1;
                     continue;
@@ -1459,9 +1981,22 @@ async fn run_hist(h: &Hist, stats: &mut Stats) -> Vec<Finding> {
                 HOp::Incr { k } => Command::Incr(k.clone()),
                 HOp::HSet { k, f, v } => Command::HSet(k.clone(), vec![(sds(f), sds(v))]),
                 HOp::HDel { k, f } => Command::HDel(k.clone(), vec![sds(f)]),
+                HOp::HIncr { k, f, by } => Command::HIncrBy(k.clone(), sds(f), *by),
+                HOp::Flush { all } => {
+                    // acknowledged, but carries no stamp and reaches neither peers nor the log: what the flushed slots
+                    // serve afterwards is not a statement about stamps, so their acknowledged writes are forgotten;
+                    // everything the node has observed (per key, per shard) stays observed
+                    let r = st.execute(if *all { Command::FlushAll } else { Command::FlushDb }).await;
+                    if !matches!(r, RespValue::Error(_)) {
+                        acks.clear();
+                        fl.n += 1;
+                        *stats.counters.entry(format!("flush:{}", if *all { "FLUSHALL" } else { "FLUSHDB" })).or_default() += 1;
+                    }
+                    continue;
+                }
             };
             let slot: Slot = match op {
-                HOp::HSet { k, f, .. } | HOp::HDel { k, f } => (k.clone(), Some(f.clone())),
+                HOp::HSet { k, f, .. } | HOp::HDel { k, f } | HOp::HIncr { k, f, .. } => (k.clone(), Some(f.clone())),
                 _ => (cmd.get_primary_key().unwrap_or("").to_string(), None),
             };
             let reply = st.execute(cmd).await;
@@ -1476,17 +2011,44 @@ async fn run_hist(h: &Hist, stats: &mut Stats) -> Vec<Finding> {
                 // an acknowledged write must supersede everything this incarnation has seen of the key; a delta emitted
                 // for a command that changed nothing may repeat the current stamp but not fall below it
                 let bad = prior.as_ref().map_or(false, |p| if changed { stamp <= p.0 } else { stamp < p.0 });
-                if bad && out.iter().any(|f| f.sig.starts_with("C08|execute")) {
+                // the same per shard (one Lamport clock per shard): an acknowledged write never repeats or undercuts a
+                // stamp the shard has issued or observed, whatever key carried it
+                let shard_prior = mon.shard.get(&shard_of(&d.key)).cloned();
+                let bad_shard = !bad && changed && shard_prior.as_ref().map_or(false, |p| stamp <= p.0);
+                // context of the write, for the signature (empty for plain histories): the stamp it is compared with was
+                // observed before the most recent FLUSHALL / FLUSHDB of this incarnation; the write changes the type of the key
+                let prev_kind = mon.kind.get(&d.key).map(|k| k.1);
+                let after_flush = if bad_shard { fl.shard_max_is_older(shard_of(&d.key)) } else { fl.key_max_is_older(&d.key) };
+                let ctx = format!("{}{}", if after_flush { "|after-flush" } else { "" }, match prev_kind { Some(k) if k != d.value.crdt_type() => format!("|type-change={}->{}", k, d.value.crdt_type()), _ => String::new() });
+                if (bad || bad_shard) && out.iter().any(|f| f.sig.starts_with("C08|execute")) {
                     *stats.counters.entry("stamp-violations-after-the-first-of-a-chain(not reported)".into()).or_default() += 1;
                 } else if bad {
                     out.push(Finding {
-                        sig: format!("C08|execute|stamp-not-above-observed|prior-via={}", via(&prior)),
+                        sig: format!("C08|execute|stamp-not-above-observed|prior-via={}{}", via(&prior), ctx),
                         detail: format!("key {:?}: {} got stamp {:?} but the node had already observed stamp {:?} for that key (via {})", d.key, if changed { "acknowledged write" } else { "delta of a no-op command" }, stamp, prior.as_ref().unwrap().0, via(&prior)),
                         extra: json!({"key": d.key, "phase": pi_, "issued": stamp, "observed": prior.as_ref().map(|p| p.0)}),
+                    });
+                } else if bad_shard {
+                    let p = shard_prior.as_ref().unwrap();
+                    out.push(Finding {
+                        sig: format!("C08|execute|stamp-not-above-shard-observed|prior-via={}{}", p.2, ctx),
+                        detail: format!("key {:?}: acknowledged write got stamp {:?} but shard {} of the node had already {} stamp {:?} (key {:?}, via {}): stamps of one shard clock never repeat or decrease", d.key, stamp, shard_of(&d.key), if p.2 == "local" { "issued" } else { "observed" }, p.0, p.1, p.2),
+                        extra: json!({"key": d.key, "phase": pi_, "issued": stamp, "shard": shard_of(&d.key), "observed": p.0, "observed_key": p.1}),
                     });
                 }
                 if changed {
                     *stats.counters.entry("acknowledged-writes-checked".into()).or_default() += 1;
+                    *stats.counters.entry(format!("writes:{}", match op { HOp::Set { .. } => "SET", HOp::Del { .. } => "DEL", HOp::Incr { .. } => "INCR", HOp::HSet { .. } => "HSET", HOp::HDel { .. } => "HDEL", HOp::HIncr { .. } => "HINCRBY", _ => "other" })).or_default() += 1;
+                    if let Some(k) = prev_kind.filter(|k| *k != d.value.crdt_type()) {
+                        *stats.counters.entry(format!("type-change:{}->{}", k, d.value.crdt_type())).or_default() += 1;
+                    }
+                    if fl.n > 0 {
+                        let rel = if fl.key_max_is_older(&d.key) && mon.key.contains_key(&d.key) { "key-observed-before-the-flush" } else if fl.shard_max_is_older(shard_of(&d.key)) && shard_prior.is_some() { "shard-stamped-before-the-flush" } else { "other" };
+                        *stats.counters.entry(format!("post-flush-write:{}", rel)).or_default() += 1;
+                    }
+                    if hash_top.remove(&shard_of(&d.key)) {
+                        *stats.counters.entry("post-restart-write:in-shard-whose-highest-recovered-stamp-is-a-checkpointed-hash".into()).or_default() += 1;
+                    }
                     if let Some((mask, path, shards, known)) = &restart {
                         if fresh_keys.insert(d.key.clone()) {
                             let rel = if known.contains(&d.key) { "same-key" } else if shards.contains(&shard_of(&d.key)) { "other-key-same-shard" } else { "other-shard" };
@@ -1496,8 +2058,14 @@ async fn run_hist(h: &Hist, stats: &mut Stats) -> Vec<Finding> {
                     if let Some((_, s, value)) = slots_of(&d.key, &d.value).into_iter().find(|x| x.0 == slot) {
                         acks.insert(slot.clone(), Ack { value, stamp: s, seen: mon.slot.get(&slot).cloned().unwrap_or_default(), prior });
                     }
+                    if mixed_key(&d.key) {
+                        // a write that replaces the whole value (SET / DEL over a hash, HSET re-creating a hash) supersedes the
+                        // acknowledged writes of the slots that are no longer part of the value
+                        let live: BTreeSet<Slot> = slots_of(&d.key, &d.value).into_iter().map(|x| x.0).collect();
+                        acks.retain(|s, _| s.0 != d.key || live.contains(s));
+                    }
                 }
-                mon.observe(&d.key, &d.value, "local");
+                fl.observe(&mut mon, &d.key, &d.value, "local");
                 locals.push(d);
             }
         }
@@ -1569,8 +2137,142 @@ fn gen_hist(rng: &mut Rng, keys: &[String], case: u64) -> Hist {
     Hist { causal: rng.gen_bool(0.3), phases, crashes }
 }
 
+/// Two keys that take string and hash commands alike: one on the shard of the first string keys, one alone on its shard.
+fn c08_mixed_keys(keys: &[String]) -> Vec<String> {
+    let taken: BTreeSet<usize> = keys.iter().map(|k| shard_of(k)).collect();
+    let all: Vec<String> = (0..400).map(|i| format!("m{}", i)).collect();
+    let same = all.iter().find(|k| shard_of(k) == shard_of(&keys[0])).expect("a mixed key on the shared shard");
+    let alone = all.iter().find(|k| !taken.contains(&shard_of(k))).expect("a mixed key on a free shard");
+    vec![same.clone(), alone.clone()]
+}
+
+fn crash_of(rng: &mut Rng, mask: u8, phase_len: usize) -> Crash {
+    Crash { mask, chk_after: rng.gen_range(0..=phase_len + 2), seg_chunks: rng.gen_range(1..=3), wal_files: rng.gen_range(1..=2), path: ["server", "manager"][rng.gen_range(0..2)].to_string() }
+}
+
+/// One random command on `k`: string commands on s-keys, hash commands on h-keys, both on m-keys.
+fn local_op(rng: &mut Rng, k: &str) -> HOp {
+    let k = k.to_string();
+    let f = ["f", "g"][rng.gen_range(0..2)].to_string();
+    let v = ["1", "2", "x", ""][rng.gen_range(0..4)].to_string();
+    let hash = if mixed_key(&k) { rng.gen_bool(0.5) } else { k.starts_with('h') };
+    match (hash, rng.gen_range(0..100)) {
+        (true, 0..=54) => HOp::HSet { k, f, v },
+        (true, 55..=74) => HOp::HIncr { k, f, by: rng.gen_range(-2..5) },
+        (true, _) => HOp::HDel { k, f },
+        (false, 0..=54) => HOp::Set { k, v, ex: if rng.gen_bool(0.15) { Some(100) } else { None } },
+        (false, 55..=79) => HOp::Del { k },
+        _ => HOp::Incr { k },
+    }
+}
+
+fn remote_op(rng: &mut Rng, k: &str) -> HOp {
+    let hash = if mixed_key(k) { rng.gen_bool(0.5) } else { k.starts_with('h') };
+    let time = match rng.gen_range(0..4) { 0 => rng.gen_range(2..12), 1 => rng.gen_range(100..200), 2 => (1 << 40) + rng.gen_range(0..4), _ => (1 << 60) + rng.gen_range(0..4) };
+    HOp::Remote { k: k.to_string(), f: hash.then(|| ["f", "g"][rng.gen_range(0..2)].to_string()), rid: [2, 3][rng.gen_range(0..2)], time, v: (!rng.gen_bool(0.2)).then(|| ["1", "2", "x"][rng.gen_range(0..3)].to_string()) }
+}
+
+/// Histories with FLUSHALL / FLUSHDB between writes: each incarnation writes, flushes once or twice somewhere behind its
+/// first writes, and goes on writing the same keys; the earlier deltas are in the log / reach the peer like all others.
+fn gen_flush_hist(rng: &mut Rng, keys: &[String], case: u64) -> Hist {
+    let n_phases = if rng.gen_bool(0.4) { 3 } else { 2 };
+    let few: Vec<&String> = keys.choose_multiple(rng, 3).collect(); // few keys: rewrites of a key across the flush are the point
+    let mut phases = vec![];
+    for _ in 0..n_phases {
+        let n = rng.gen_range(3..=9);
+        let mut ops: Vec<HOp> = (0..n).map(|_| { let k = few[rng.gen_range(0..few.len())]; if rng.gen_bool(0.15) { remote_op(rng, k) } else { local_op(rng, k) } }).collect();
+        for _ in 0..rng.gen_range(1..=2) {
+            ops.insert(rng.gen_range(1..=ops.len() - 1), HOp::Flush { all: rng.gen_bool(0.5) });
+        }
+        phases.push(ops);
+    }
+    let crashes = (0..n_phases - 1).map(|i| crash_of(rng, ((case + i as u64) % 7) as u8 + 1, phases[i].len())).collect();
+    Hist { causal: rng.gen_bool(0.3), phases, crashes }
+}
+
+/// Histories on keys that change type: SET / DEL / INCR and HSET / HINCRBY / HDEL on the same key, local and remote.
+fn gen_mixed_hist(rng: &mut Rng, keys: &[String], mixed: &[String], case: u64) -> Hist {
+    let n_phases = if rng.gen_bool(0.3) { 3 } else { 2 };
+    let mut phases = vec![];
+    for p in 0..n_phases {
+        let n = rng.gen_range(if p == 0 { 4 } else { 2 }..=10);
+        phases.push((0..n).map(|_| {
+            let k = if rng.gen_bool(0.75) { &mixed[rng.gen_range(0..mixed.len())] } else { &keys[rng.gen_range(0..keys.len())] };
+            if rng.gen_bool(0.2) { remote_op(rng, k) } else { local_op(rng, k) }
+        }).collect::<Vec<_>>());
+    }
+    let crashes = (0..n_phases - 1).map(|i| crash_of(rng, ((case + i as u64) % 7) as u8 + 1, phases[i].len())).collect();
+    Hist { causal: rng.gen_bool(0.3), phases, crashes }
+}
+
+/// Restart from a checkpoint alone in which a hash carries the highest stamp of its shard, then writes in that shard.
+fn gen_chk_hash_hist(rng: &mut Rng, keys: &[String], mixed: &[String]) -> Hist {
+    // the hash: alone on its shard (keys[4]), sharing the shard of the string keys (keys[2]), or a key that may change type
+    let hk = [&keys[4], &keys[2], &mixed[0], &mixed[1]][rng.gen_range(0..4)].clone();
+    let mates: Vec<&String> = keys.iter().chain(mixed).filter(|k| shard_of(k) == shard_of(&hk)).collect();
+    let mut first: Vec<HOp> = (0..rng.gen_range(0..5)).map(|_| { let k = mates[rng.gen_range(0..mates.len())]; if rng.gen_bool(0.2) { remote_op(rng, k) } else { local_op(rng, k) } }).collect();
+    if mixed_key(&hk) && rng.gen_bool(0.5) {
+        first.push(HOp::Del { k: hk.clone() }); // a hash (re-)created behind a tombstone
+    }
+    for _ in 0..rng.gen_range(1..=4) {
+        let f = ["f", "g"][rng.gen_range(0..2)].to_string();
+        first.push(match rng.gen_range(0..10) { 0..=5 => HOp::HSet { k: hk.clone(), f, v: ["1", "2", "x"][rng.gen_range(0..3)].to_string() }, 6..=7 => HOp::HIncr { k: hk.clone(), f, by: 1 }, _ => HOp::HSet { k: hk.clone(), f: "f".into(), v: "7".into() } });
+    }
+    let mut second: Vec<HOp> = vec![];
+    let opener = rng.gen_range(0..4);
+    for i in 0..rng.gen_range(1..=5) {
+        let k = if i == 0 && opener < 3 { &hk } else { mates[rng.gen_range(0..mates.len())] };
+        second.push(match (i, opener) {
+            (0, 0) => HOp::HSet { k: k.clone(), f: "f".into(), v: "after".into() },
+            (0, 1) => HOp::HDel { k: k.clone(), f: "f".into() },
+            (0, 2) if mixed_key(k) => HOp::Set { k: k.clone(), v: "after".into(), ex: None },
+            _ => local_op(rng, k),
+        });
+    }
+    let mut phases = vec![first, second];
+    let mut crashes = vec![Crash { mask: 1, ..crash_of(rng, 1, 0) }];
+    if rng.gen_bool(0.3) {
+        let mask = rng.gen_range(1..=7);
+        crashes.push(crash_of(rng, mask, phases[1].len()));
+        phases.push((0..rng.gen_range(1..=4)).map(|_| { let k = mates[rng.gen_range(0..mates.len())]; local_op(rng, k) }).collect());
+    }
+    Hist { causal: rng.gen_bool(0.3), phases, crashes }
+}
+
+/// Hand-written minimal histories of the three classes (they also document what the classes are about).
+fn directed_hists(keys: &[String], mixed: &[String]) -> Vec<(&'static str, Hist)> {
+    let set = |k: &String, v: &str| HOp::Set { k: k.clone(), v: v.into(), ex: None };
+    let hset = |k: &String, f: &str, v: &str| HOp::HSet { k: k.clone(), f: f.into(), v: v.into() };
+    let crash = |mask: u8, path: &str| Crash { mask, chk_after: 99, seg_chunks: 1, wal_files: 1, path: path.into() };
+    let one = |ops: Vec<HOp>| Hist { causal: false, phases: vec![ops], crashes: vec![] };
+    let mut out = vec![];
+    for all in [true, false] {
+        for k in [&keys[0], &keys[3]] {
+            out.push(("flush", one(vec![set(k, "1"), set(k, "2"), set(k, "x"), HOp::Flush { all }, set(k, "after")])));
+            out.push(("flush", Hist { causal: false, phases: vec![vec![set(k, "1"), set(k, "2"), HOp::Flush { all }, set(k, "x")], vec![set(k, "after")]], crashes: vec![crash(6, "server")] }));
+        }
+        for k in [&keys[2], &keys[4]] {
+            out.push(("flush", one(vec![hset(k, "f", "1"), hset(k, "g", "2"), hset(k, "f", "x"), HOp::Flush { all }, hset(k, "f", "after")])));
+        }
+        out.push(("flush", one(vec![set(&keys[0], "1"), set(&keys[1], "2"), set(&keys[0], "x"), HOp::Flush { all }, set(&keys[1], "after")])));
+    }
+    for m in mixed {
+        out.push(("mixed", one(vec![hset(m, "f", "1"), hset(m, "g", "2"), set(m, "string")])));
+        out.push(("mixed", one(vec![hset(m, "f", "1"), HOp::HIncr { k: m.clone(), f: "g".into(), by: 3 }, HOp::HDel { k: m.clone(), f: "f".into() }, set(m, "string")])));
+        out.push(("mixed", one(vec![set(m, "string"), HOp::Del { k: m.clone() }, hset(m, "f", "1"), set(m, "again"), HOp::Del { k: m.clone() }, hset(m, "g", "2")])));
+        out.push(("mixed", Hist { causal: false, phases: vec![vec![hset(m, "f", "1"), hset(m, "f", "2")], vec![set(m, "string")]], crashes: vec![crash(7, "manager")] }));
+    }
+    // SET over a hash while another key of the shard was stamped in between
+    out.push(("mixed", one(vec![hset(&mixed[0], "f", "1"), set(&keys[0], "x"), set(&mixed[0], "string")])));
+    for (k, path) in [(&keys[4], "server"), (&keys[4], "manager"), (&keys[2], "server"), (&mixed[1], "manager")] {
+        out.push(("checkpointed-hash", Hist { causal: false, phases: vec![vec![hset(k, "f", "1"), hset(k, "g", "2"), hset(k, "f", "3")], vec![hset(k, "f", "after")]], crashes: vec![crash(1, path)] }));
+        out.push(("checkpointed-hash", Hist { causal: false, phases: vec![vec![hset(k, "f", "1"), hset(k, "g", "2")], vec![HOp::HDel { k: k.clone(), f: "g".into() }]], crashes: vec![crash(1, path)] }));
+    }
+    out
+}
+
 async fn shrink_hist(h: &Hist, sig: &str) -> Hist {
-    let hits = |findings: Vec<Finding>| findings.iter().any(|f| f.sig == sig);
+    let hits = |findings: Vec<Finding>| findings.iter().any(|f| base_sig(&f.sig) == base_sig(sig));
     let mut cur = h.clone();
     if cur.phases.len() == 3 {
         let t = Hist { phases: cur.phases[..2].to_vec(), crashes: cur.crashes[..1].to_vec(), ..cur.clone() };
@@ -1616,10 +2318,32 @@ pub fn stamps_leg(args: &Args) {
     if !rt.block_on(check_shard_map(&keys)) {
         rep.inconclusive("the harness's key -> shard map differs from the node's");
     }
+    let mixed = c08_mixed_keys(&keys);
+    if !rt.block_on(check_shard_map(&keys.iter().chain(&mixed).cloned().collect::<Vec<_>>())) {
+        rep.inconclusive("the harness's key -> shard map differs from the node's (keys that change type)");
+    }
     let n = args.get_u64("histories", if args.thorough() { 20000 } else { 4000 });
     let mut stats = Stats::default();
-    for case in 0..n {
-        let h = gen_hist(&mut rng, &keys, case + args.shard as u64);
+    // the plain histories first, from their own stream (the same as before the other classes existed), then the new classes
+    let mut rng2 = args.rng(81);
+    let (n_flush, n_mixed, n_chk) = (args.get_u64("flush-histories", n * 3 / 10), args.get_u64("mixed-histories", n * 3 / 10), args.get_u64("checkpointed-hash-histories", n / 8));
+    let directed = directed_hists(&keys, &mixed);
+    let mut raw_seen: BTreeSet<String> = BTreeSet::new(); // signatures as found, before minimisation
+    let total = n + n_flush + n_mixed + n_chk + directed.len() as u64;
+    for case in 0..total {
+        let (space, h) = if case < n {
+            ("plain", gen_hist(&mut rng, &keys, case + args.shard as u64))
+        } else if case < n + n_flush {
+            ("flush", gen_flush_hist(&mut rng2, &keys, case + args.shard as u64))
+        } else if case < n + n_flush + n_mixed {
+            ("mixed", gen_mixed_hist(&mut rng2, &keys, &mixed, case + args.shard as u64))
+        } else if case < n + n_flush + n_mixed + n_chk {
+            ("checkpointed-hash", gen_chk_hash_hist(&mut rng2, &keys, &mixed))
+        } else {
+            let d = &directed[(case - n - n_flush - n_mixed - n_chk) as usize];
+            (d.0, d.1.clone())
+        };
+        rep.count(&format!("space:{}", space));
         rep.evaluations += 1;
         rep.add("incarnations", h.phases.len() as u64);
         for c in &h.crashes {
@@ -1631,17 +2355,18 @@ pub fn stamps_leg(args: &Args) {
         };
         for f in findings {
             rep.count(&format!("fail:{}", &f.sig[4..]));
-            if rep.has_sig(&f.sig) {
+            if rep.has_sig(&f.sig) || !raw_seen.insert(f.sig.clone()) {
                 rep.count("violations_raw");
                 continue;
             }
+            // minimise on the signature without its context; the context reported is the one of the minimised history
             let small = guard(|| rt.block_on(shrink_hist(&h, &f.sig))).unwrap_or_else(|_| h.clone());
-            let again = guard(|| rt.block_on(run_hist(&small, &mut Stats::default()))).unwrap_or_default().into_iter().find(|x| x.sig == f.sig);
+            let again = guard(|| rt.block_on(run_hist(&small, &mut Stats::default()))).unwrap_or_default().into_iter().find(|x| base_sig(&x.sig) == base_sig(&f.sig));
             let (wh, wf) = match again { Some(x) => (small, x), None => (h.clone(), f) };
             rep.violation(wf.sig.clone(), wf.detail.clone(), json!({"history": wh, "observed": wf.extra}));
         }
-        if case < 3 {
-            rep.sample(json!({"history": h, "keys_and_shards": keys.iter().map(|k| (k.clone(), shard_of(k))).collect::<Vec<_>>()}));
+        if case < 3 || [n, n + n_flush, n + n_flush + n_mixed].contains(&case) {
+            rep.sample(json!({"space": space, "history": h, "keys_and_shards": keys.iter().chain(&mixed).map(|k| (k.clone(), shard_of(k))).collect::<Vec<_>>()}));
         }
     }
     for (k, v) in &stats.counters {
@@ -1653,9 +2378,14 @@ pub fn stamps_leg(args: &Args) {
     }
     let mut missing: Vec<String> = (1..=7u8).flat_map(|m| ["same-key", "other-shard"].map(|r| (m, r))).filter(|(m, r)| !stats.classes.iter().any(|c| c.0 == *m && c.1 == *r)).map(|(m, r)| format!("sources mask {} x {}", m, r)).collect();
     missing.extend(["remote-deltas:far-future", "acknowledged-writes-checked", "peer-read:checked", "node-read-after-recovery:checked"].iter().filter(|k| rep.counters.get(**k).copied().unwrap_or(0) == 0).map(|k| k.to_string()));
+    // the classes added later: flushes between writes of one key / one shard, type changes in both directions, hash
+    // commands, restarts whose highest recovered stamp of a shard sits in a checkpointed hash
+    missing.extend(["flush:FLUSHALL", "flush:FLUSHDB", "post-flush-write:key-observed-before-the-flush", "post-flush-write:shard-stamped-before-the-flush", "type-change:hash->lww", "type-change:lww->hash", "writes:HSET", "writes:HDEL", "writes:HINCRBY",
+        "restart:checkpoint-only:a-hash-holds-the-highest-stamp-of-its-shard", "post-restart-write:in-shard-whose-highest-recovered-stamp-is-a-checkpointed-hash"].iter().filter(|k| rep.counters.get(**k).copied().unwrap_or(0) == 0).map(|k| k.to_string()));
     if !missing.is_empty() {
         rep.inconclusive(format!("never observed: {}", missing.join(", ")));
     }
+    rep.note("besides the plain histories: histories with FLUSHALL / FLUSHDB between writes (the per-key and per-shard maxima are kept across the flush), histories on keys that change type (SET over a hash, HSET after DEL, HINCRBY), restarts from a checkpoint alone whose highest stamp of a shard is a hash's; every acknowledged write is also checked against the highest stamp its shard has issued or observed");
     rep.note("one case = one incarnation chain of a node (2-3 incarnations, crash = state dropped, recovery from a subset of checkpoint/segments/WAL built from the chain's own deltas); distinct = (recovery sources, relation of the first post-restart write to the recovered keys, recovery path)");
     rep.finish(args);
 }
